@@ -275,6 +275,79 @@ pub struct NOp {
     pub b: Hex,
 }
 
+/// add / sub / double with operands crafted on the *stored* values (Montgomery residues for Fp, plain values mod N) so that the integer sum or
+/// difference lands on a chosen target — on both sides of each of N, p and 2^256, whichever modulus the operation belongs to: a reduction decided
+/// against the wrong modulus, or with `>` for `>=`, or ignoring the carry out of 256 bits, differs exactly there.
+#[derive(Serialize, Deserialize, Hash, Debug, Clone)]
+pub struct Sum {
+    /// 0: Fp (fp_add / fp_sub / fp_double on stored residues); 1: mod N (mod_n_add / mod_n_sub)
+    pub field: u8,
+    /// 0 add: b := target - a; 1 sub: b := a - target (a - b = target, negative targets through the wrap); 2 double: a := target / 2 (Fp only)
+    pub op: u8,
+    pub a: Hex,
+    pub target: Hex,
+    /// the target is meant negatively (sub only): a - b = -target
+    pub neg: bool,
+}
+
+/// big-endian bytes of a value that may exceed 256 bits
+fn gen_hex(v: &BigUint) -> Hex {
+    Hex(v.to_bytes_be())
+}
+
+fn check_sum(c: &Sum) -> CaseResult {
+    use gm_sm9::fields as f;
+    let pr = r9::params();
+    let m: &BigUint = if c.field == 0 { pr.p } else { &pr.n };
+    let t = from_be(&c.target);
+    let a = from_be(&c.a) % m;
+    let two256 = BigUint::one() << 256usize;
+    let (a, b) = match c.op % 3 {
+        0 => {
+            // a + b = t with 0 <= a, b < m
+            let lo = if t >= *m { &t - m + 1u32 } else { BigUint::zero() };
+            let hi = if t < *m { t.clone() } else { m - 1u32 };
+            if lo > hi {
+                return pass(false, "target-out-of-reach");
+            }
+            let a = &lo + &a % (&hi - &lo + 1u32);
+            let b = &t - &a;
+            (a, b)
+        }
+        1 => {
+            // a - b = t (or -t) with 0 <= a, b < m
+            if t >= *m {
+                return pass(false, "target-out-of-reach");
+            }
+            if c.neg {
+                let b = &t + &a % (m - &t);
+                (&b - &t, b)
+            } else {
+                let a = &t + &a % (m - &t);
+                let b = &a - &t;
+                (a, b)
+            }
+        }
+        _ => {
+            let a = (&t >> 1usize) % m;
+            (a.clone(), a)
+        }
+    };
+    let _ = two256;
+    let (al, bl) = (to_limbs(&a), to_limbs(&b));
+    let (name, want, got): (&str, BigUint, Result<[u64; 4], String>) = match (c.field, c.op % 3) {
+        (0, 0) => ("Fp::fp_add", (&a + &b) % m, catch(|| al.fp_add(&bl))),
+        (0, 1) => ("Fp::fp_sub", (&a + m - &b) % m, catch(|| al.fp_sub(&bl))),
+        (0, _) => ("Fp::fp_double", (&a * 2u32) % m, catch(|| al.fp_double())),
+        (_, 0) => ("mod_n_add", (&a + &b) % m, catch(|| f::mod_n_add(&al, &bl))),
+        (_, 1) => ("mod_n_sub", (&a + m - &b) % m, catch(|| f::mod_n_sub(&al, &bl))),
+        _ => return pass(false, "no-double-mod-n"),
+    };
+    let got = got.map_err(|p| Fail { key: format!("entry={} outcome=panic", name), detail: p })?;
+    ensure!(from_limbs(&got) == want, format!("entry={} outcome=wrong-value input=crafted-sum", name), "stored a={:x} b={:x}: library {:x} expected {:x} (integer sum/difference aimed at {}{:x})", a, b, from_limbs(&got), want, if c.neg { "-" } else { "" }, t);
+    pass(true, format!("{}/{}", name, if t >= *m { "at-or-above-modulus" } else { "below-modulus" }))
+}
+
 const N_OPS: &[&str] = &["mod_n_add", "mod_n_sub", "mod_n_mul", "mod_n_inv", "mod_n_pow"];
 
 fn check_nop(c: &NOp) -> CaseResult {
@@ -780,6 +853,51 @@ pub fn run(ctx: &Ctx) {
         }
         v
     }, check_nop);
+    ctx.exhaustive("crafted_sums_and_differences", "fp_add / fp_sub / fp_double (on stored Montgomery residues) and mod_n_add / mod_n_sub with operands crafted so that the integer sum (resp. difference) lands within 2 of 0, N, p, (N+p)/2, 2N, N+p, 2p-2, 2^255, 2^256 — every target for both moduli, 6 operand draws each — and on the 2 x 625 limb-wise neighbours of N and p (each limb equal to the modulus' limb, one below, one above, 0 or all ones): a reduction decided against the other modulus, with > for >=, or blind to the carry out of 256 bits", || {
+        let (n, p) = (&pr.n, pr.p);
+        let two256 = BigUint::one() << 256usize;
+        let mut anchors: Vec<BigUint> = vec![BigUint::from(2u32), n.clone(), p.clone(), (n + p) >> 1usize, n * 2u32, n + p, p * 2u32 - 4u32, BigUint::one() << 255usize, two256.clone(), &two256 - p, &two256 - n];
+        anchors.push(&two256 + (p - n));
+        let mut v = Vec::new();
+        for (i, anchor) in anchors.iter().enumerate() {
+            for d in 0..5u32 {
+                let t = anchor + d - 2u32;
+                for draw in 0..6u64 {
+                    let a = Hex(expand_bytes((i as u64) << 16 | (d as u64) << 8 | draw, 32));
+                    for field in 0..2u8 {
+                        v.push(Sum { field, op: 0, a: a.clone(), target: gen_hex(&t), neg: false });
+                        v.push(Sum { field, op: 1, a: a.clone(), target: gen_hex(&t), neg: false });
+                        v.push(Sum { field, op: 1, a: a.clone(), target: gen_hex(&t), neg: true });
+                        if draw == 0 {
+                            v.push(Sum { field, op: 2, a: a.clone(), target: gen_hex(&t), neg: false });
+                            v.push(Sum { field, op: 2, a: a.clone(), target: gen_hex(&(&t + 1u32)), neg: false });
+                        }
+                    }
+                }
+            }
+        }
+        // limb-wise neighbours of each modulus: every limb independently equal to the modulus' limb, one below, one above, 0 or all ones — values that
+        // tie with the modulus in some limbs and differ in others (a comparison that walks the limbs in the wrong order, or in halves, decides these wrongly)
+        for (mi, m) in [n, p].iter().enumerate() {
+            let ml = to_limbs(m);
+            for code in 0..625u32 {
+                let mut l = [0u64; 4];
+                let mut c = code;
+                for i in 0..4 {
+                    l[i] = match c % 5 { 0 => ml[i], 1 => ml[i].wrapping_sub(1), 2 => ml[i].wrapping_add(1), 3 => 0, _ => u64::MAX };
+                    c /= 5;
+                }
+                let t = from_limbs(&l);
+                let a = Hex(expand_bytes(0x11b0 + code as u64 + ((mi as u64) << 12), 32));
+                for field in 0..2u8 {
+                    v.push(Sum { field, op: 0, a: a.clone(), target: gen_hex(&t), neg: false });
+                    v.push(Sum { field, op: 1, a: a.clone(), target: gen_hex(&t), neg: code % 2 == 0 });
+                }
+            }
+        }
+        v
+    }, check_sum);
+
     ctx.exhaustive("modn_crafted_products_and_inverses", "mod_n_mul with operands crafted so that the integer product a*b lands on chosen targets: just above N, 2N, kN (s * (ceil(T/s) + t) for small s, t), around 2^256, 2^255, N + 2^190 (a product that fits 256 bits, shares its top limb with N and still needs one subtraction); a = isqrt(N)+-2; mod_n_inv of values whose inverse is short or sparse (inverses of 2, 3, 2^64, 2^128, 2^192-1, boundary-limb values), and inv(inv(x)) == x", || {
         let n = &pr.n;
         let mut v = Vec::new();
